@@ -379,6 +379,33 @@ func addrOracle(r *rand.Rand, n int, tier string, infile string) (cases int, fai
 			arbitrary(parseGramTerm(op[1]), hx.UnHex(op[2]))
 		}
 	}
+	// the laws the theorems assume of the standard library (EnvOK): the canonical text of a parsed IP is
+	// non-empty, parses to itself, and contains no newline or bracket; scanning the decimal text of a 16-bit
+	// number yields it
+	envLaws := func(text string) {
+		cases++
+		ip, err := netip.ParseAddr(text)
+		if err != nil {
+			return
+		}
+		c := ip.String()
+		if ip2, err := netip.ParseAddr(c); err != nil || ip2.String() != c || c == "" || strings.ContainsAny(c, "\n[]") {
+			fail("EnvOK law broken by net/netip: %q parses to canonical %q", text, c)
+		}
+	}
+	for _, t := range ipPool {
+		envLaws(t)
+	}
+	for i := 0; i < 300; i++ {
+		b := hx.Bytes(r, hx.Pick(r, 4, 16))
+		ip, _ := netip.AddrFromSlice(b)
+		envLaws(ip.String())
+		p := uint16(r.Intn(65536))
+		var q uint16
+		if _, err := fmt.Sscan(strconv.Itoa(int(p)), &q); err != nil || q != p {
+			fail("EnvOK law broken by fmt.Sscan: %d scans to %d (%v)", p, q, err)
+		}
+	}
 	for i := 0; i < n; i++ {
 		g, a := genAddr(r, hx.Pick(r, 0, 1, 2, 3, 4))
 		roundTrip(g, a)
